@@ -98,6 +98,42 @@ func c13ErrClass(err error) int {
 	return 4
 }
 
+// file capabilities (cap_net_raw+ep, vfs_cap_data v2).  chown(2) on a non-directory strips
+// security.capability, and the shared materialiser chowns after setting xattrs, so the
+// attribute is (re)applied here, after Materialize, to every regular file that carries it
+var c13CapV2 = []byte{0x01, 0x00, 0x00, 0x02, 0x00, 0x20, 0x00, 0x00, 0, 0, 0, 0, 0, 0, 0, 0, 0, 0, 0, 0}
+
+const c13CapKey = "security.capability"
+
+func c13ReapplyCaps(roots []*MNode, dir string) error {
+	var rec func(base string, n *MNode) error
+	rec = func(base string, n *MNode) error {
+		p := filepath.Join(base, n.Name)
+		if v, ok := n.Stat.Xattrs[c13CapKey]; ok && os.FileMode(n.Stat.Mode)&os.ModeType == 0 {
+			var st unix.Stat_t
+			if err := unix.Lstat(p, &st); err != nil {
+				return err
+			}
+			if err := unix.Lsetxattr(p, c13CapKey, v, 0); err != nil {
+				return fmt.Errorf("lsetxattr %s %s: %v", p, c13CapKey, err)
+			}
+			// setxattr leaves mtime alone; restore nothing else
+		}
+		for _, k := range n.Kids {
+			if err := rec(p, k); err != nil {
+				return err
+			}
+		}
+		return nil
+	}
+	for _, n := range roots {
+		if err := rec(dir, n); err != nil {
+			return err
+		}
+	}
+	return nil
+}
+
 func c13SetRootMeta(dir string) error {
 	if err := os.Chown(dir, 0, 0); err != nil {
 		return err
@@ -201,6 +237,12 @@ func run1301(in Sx) (out Sx) {
 	if err := Materialize(dstView, dstRoot); err != nil {
 		return L(S("setup-dst"), S(err.Error()))
 	}
+	if err := c13ReapplyCaps(srcView, srcRoot); err != nil {
+		return L(S("setup-caps"), S(err.Error()))
+	}
+	if err := c13ReapplyCaps(dstView, dstRoot); err != nil {
+		return L(S("setup-caps"), S(err.Error()))
+	}
 	if err := c13SetRootMeta(srcRoot); err != nil {
 		return L(S("setup"), S(err.Error()))
 	}
@@ -266,8 +308,26 @@ func run1302(in Sx) (out Sx) {
 var c13Universe = []string{"d1", "d2", "f1", "f2", "x", "y"}
 
 func c13FixView(r *Rng, roots []*MNode, sockets, trustedOnLinks bool) {
-	var rec func(n *MNode)
-	rec = func(n *MNode) {
+	// paths that other names are hard-linked to
+	targets := map[string]bool{}
+	var scan func(n *MNode)
+	scan = func(n *MNode) {
+		if os.FileMode(n.Stat.Mode)&os.ModeType == 0 && n.Stat.Linkname != "" {
+			targets[n.Stat.Linkname] = true
+		}
+		for _, k := range n.Kids {
+			scan(k)
+		}
+	}
+	for _, n := range roots {
+		scan(n)
+	}
+	var rec func(dir string, n *MNode)
+	rec = func(dir string, n *MNode) {
+		p := n.Name
+		if dir != "" {
+			p = dir + "/" + n.Name
+		}
 		m := os.FileMode(n.Stat.Mode)
 		if sockets && m&os.ModeNamedPipe != 0 && r.Chance(40) {
 			n.Stat.Mode = uint32(os.ModeSocket | 0755)
@@ -275,12 +335,20 @@ func c13FixView(r *Rng, roots []*MNode, sockets, trustedOnLinks bool) {
 		if trustedOnLinks && m&os.ModeSymlink != 0 && r.Chance(30) {
 			n.Stat.Xattrs = map[string][]byte{"trusted.t": fillContent(r, 1+r.Intn(4))}
 		}
+		// file capabilities (security.capability) on regular files outside link groups
+		// (the members of a group are separate Stat values of one inode)
+		if m&os.ModeType == 0 && n.Stat.Linkname == "" && !targets[p] && r.Chance(15) {
+			if n.Stat.Xattrs == nil {
+				n.Stat.Xattrs = map[string][]byte{}
+			}
+			n.Stat.Xattrs[c13CapKey] = c13CapV2
+		}
 		for _, k := range n.Kids {
-			rec(k)
+			rec(p, k)
 		}
 	}
 	for _, n := range roots {
-		rec(n)
+		rec("", n)
 	}
 }
 
@@ -531,6 +599,12 @@ func c13Node(kind, name string, r *Rng, child string) *MNode {
 		st.Size = int64(sz)
 		if r.Chance(40) {
 			st.Xattrs = map[string][]byte{"user.k" + string(rune('a'+r.Intn(3))): fillContent(r, 1+r.Intn(3))}
+		}
+		if r.Chance(30) {
+			if st.Xattrs == nil {
+				st.Xattrs = map[string][]byte{}
+			}
+			st.Xattrs[c13CapKey] = c13CapV2
 		}
 	case "link":
 		st.Mode = uint32(os.ModeSymlink | 0777)
